@@ -4,6 +4,7 @@
 -/
 import BespokeVerif.Model.Layout
 import BespokeVerif.Lemmas.Layout
+import BespokeVerif.Lemmas.StmtSize
 namespace BV.C02
 open BV
 
@@ -71,6 +72,29 @@ theorem reserved_eq_emitted (cfg : Cfg) (zs : Zones) (L L₂ : Labels) (ln : Lin
     (bs.length : Int) = p.size := by
   obtain ⟨z₀, addr, size, _, hp, _, _, rfl⟩ := firstPassStep_ok h
   exact lineBytes_length hp hb hbyte hpos
+
+/-- the same for a bit-packed ISA instruction statement (any operand types, field widths, alignment
+    and byte order): the bytes finally emitted — with the final label values, at the final address —
+    are exactly as many as `stmtSize` reserved from variant selection, which looks at no value -/
+theorem instruction_reserved_eq_emitted (regs : List String) (gz : Int × Int) (env : String → Option Int) (addr : Int)
+    (variants : List VariantCfg) (fs : List Form) (i : Nat) (bs : List Nat)
+    (h : assembleStmt regs gz env addr variants fs = .ok (i, bs)) :
+    ∃ v m, selectVariant regs gz variants fs 0 = .ok (i, v, m) ∧ bs.length = stmtSize v m :=
+  assembleStmt_length h
+
+/-- … hence two passes over the same statement (unknown forward labels first, final values second;
+    or the statement moved to another address) always agree on its size -/
+theorem instruction_size_pass_independent (regs : List String) (gz : Int × Int) (env env' : String → Option Int)
+    (addr addr' : Int) (variants : List VariantCfg) (fs : List Form) (i i' : Nat) (bs bs' : List Nat)
+    (h : assembleStmt regs gz env addr variants fs = .ok (i, bs))
+    (h' : assembleStmt regs gz env' addr' variants fs = .ok (i', bs')) :
+    bs.length = bs'.length ∧ i = i' := by
+  obtain ⟨v, m, hs, hl⟩ := assembleStmt_length h
+  obtain ⟨v', m', hs', hl'⟩ := assembleStmt_length h'
+  rw [hs] at hs'
+  simp only [Acc.ok.injEq, Prod.mk.injEq] at hs'
+  obtain ⟨rfl, rfl, rfl⟩ := hs'
+  exact ⟨by rw [hl, hl'], rfl⟩
 
 /-- a line that is not byte-producing emits nothing and reserves nothing -/
 theorem non_byte_line_empty (cfg : Cfg) (zs : Zones) (L L₂ : Labels) (ln : Line) (p : Placed)
